@@ -30,7 +30,7 @@ Theorem C06_qualifiers_panic_only_index_of_absent_key : forall q o, QInv cfg q -
   (exists k, (o = QIdx k \/ exists v, o = QIdxSet k v) /\ q_get cfg q k = None) \/ (exists i v, o = QTKIns i v /\ (length (typed_keys cfg) <= i)%nat) \/ (exists k v, o = QTUIns k v /\ valid_key cfg k = false).
 Proof. apply qxstep_panics_only_when_documented; try sc; vm_compute; reflexivity. Qed.
 Print Assumptions C06_qualifiers_panic_only_index_of_absent_key.
-Theorem C06_builder_calls_never_panic : forall (T : Type) (b : T * parts) o, xstep cfg b o <> Err StopPanic.
+Theorem C06_builder_calls_never_panic : forall (T : Type) (b : T * parts) o, xstep cfg b o = Err StopPanic -> exists k v, o = XTyped k v /\ valid_key cfg k = false.
 Proof. intros T. apply xstep_never_panics; try sc; vm_compute; reflexivity. Qed.
 Print Assumptions C06_builder_calls_never_panic.
 Theorem C06_checksum_text_never_panics : forall m, cs_text_of cfg m <> CsPanic.
